@@ -637,6 +637,9 @@ func c02RetainedAtom(c *core.Ctx, ev *core.AbsEval, info *types.Info, cat *types
 			if core.IsNil(info, r) && ofCat(l, "Surcharge") {
 				return (x.Op == token.NEQ) == surcharge, true
 			}
+			if core.IsNil(info, r) && core.VarOf(info, l) == cat {
+				return x.Op == token.NEQ, true // the category at hand is an entry of the list, not a null
+			}
 		}
 	case *ast.CallExpr:
 		fn := core.Callee(info, x)
